@@ -281,3 +281,30 @@ def f_local(E, node):
     if name not in env:
         raise Unsupported('no local %s at this point' % name)
     return env[name]
+
+
+@form('selects')
+def f_selects(E, node):
+    """selects(out, src, mask[, shift_cols, shift]): table `out` consists of exactly the rows of `src` whose mask entry is
+    True, in order, all values equal - except that the columns named in shift_cols are reduced by `shift`"""
+    from . import lib
+    out = E.eval(node.args[0])
+    src = E.eval(node.args[1])
+    mask = E.eval(node.args[2])
+    shift_cols = E.eval(node.args[3]) if len(node.args) > 3 else ()
+    shift = E.eval(node.args[4]) if len(node.args) > 4 else 0
+    if isinstance(shift_cols, PyList):
+        shift_cols = tuple(shift_cols.items)
+    m, g, cnt = lib.compress_map(E, mask, node)
+    k = z3.Int(fresh_name('sk'))
+    parts = [out.n == m, z3.BoolVal(set(out.cols) == set(src.cols))]
+    sh = lift(shift)
+    for c, a in src.cols.items():
+        if c not in out.cols:
+            continue
+        o = E.rd(out.cols[c], k)
+        sv = E.st.heap[a.ident](a.off + g(k) * a.stride)
+        if c in shift_cols:
+            sv = E.binop(ast.Sub(), sv, sh)
+        parts.append(z3.ForAll([k], z3.Implies(z3.And(k >= 0, k < m), zbool(same(E, o, sv)))))
+    return Z(z3.And(*parts), BOOL)
